@@ -1,6 +1,6 @@
 (* C34 -- per-case judge.
    KeyCase     : addrquota.ipKey on one address text (observed key string, parsed back here).
-   QuotaCase   : Quota.Blocked on address texts in real time; per text (attempts, admitted), measured elapsed ns.
+   QuotaCase   : Quota.Blocked on address texts in real time; per text (attempts, granted), measured elapsed ns.
    LimCase     : packetlimiter.Limiter through VerifAccountAt with generated timestamps/sizes;
                  observed decisions and (head, tail, cap, total) of both counters after every event,
                  full arrays at the end.
@@ -130,14 +130,14 @@ Fixpoint totals_ok (iv : Z) (hist : list (Z * Z)) (evs : list (Z * Z)) (obs : li
   end.
 
 (* ---------- quota ---------- *)
-(* group the requests by spec key; per group: attempts, admitted *)
+(* group the requests by spec key; per group: attempts, granted *)
 Fixpoint group_add (k : addr) (att adm : Z) (gs : list (addr * Z * Z)) : list (addr * Z * Z) :=
   match gs with
   | [] => [(k, att, adm)]
   | (k', a, d) :: r => if addr_eqb k k' then (k', a + att, d + adm) :: r else (k', a, d) :: group_add k att adm r
   end.
 
-(* admitted within [min(attempts, burst), burst + rate * elapsed + 1] *)
+(* granted within [min(attempts, burst), burst + rate * elapsed + 1] *)
 Definition group_ok (burst rnum rden elapsed : Z) (g : addr * Z * Z) : bool :=
   let '(_, att, adm) := g in
   (Z.min att burst <=? adm) && (adm <=? att) &&
